@@ -149,7 +149,8 @@ def _run_linpol(case):
     ia, ib = int(round(a * 4e9)), int(round(b * 4e9))
     forms += [(1e170 * a, 1e170 * b), (1e-170 * a, 1e-170 * b), [1e170 * a, 1e170 * b, 0.0],
               xr.DataArray([k * b, k * a, 0.0], coords={"vector": ["y", "x", "z"]}, dims="vector"),
-              xr.DataArray([0.0, k * a, k * b], coords={"vector": ["z", "x", "y"]}, dims="vector")]
+              xr.DataArray([0.0, k * a, k * b], coords={"vector": ["z", "x", "y"]}, dims="vector"),
+              xr.DataArray([k * b, k * a], coords={"vector": ["y", "x"]}, dims="vector")]          # (two labelled components: F141)
     worst = 0.0
     for pf in forms:
         worst = max(worst, relmax(_calc_field(det, s, th, dict(o, illum_polarization=pf)).values, fab))
@@ -162,7 +163,7 @@ def _run_linpol(case):
     from holopy.scattering import calc_holo
     kw = dict(medium_index=o["medium_index"], illum_wavelen=o["illum_wavelen"], theory=th)
     h0 = calc_holo(det, s, illum_polarization=(a, b), **kw).values
-    hw = max(relmax(calc_holo(det, s, illum_polarization=pf, **kw).values, h0) for pf in (forms[-1], forms[-2], forms[-5]))
+    hw = max(relmax(calc_holo(det, s, illum_polarization=pf, **kw).values, h0) for pf in (forms[-1], forms[-2], forms[-3], forms[-6]))
     resid["pol_forms@" + t] = max(resid["pol_forms@" + t], hw)
     return {"resid": resid, "flags": {}, "fmax": fnum(float(np.abs(fab).max())), "qeps1": cfg["theory"].get("kw", {}).get("qeps1", 1e-5)}
 
